@@ -110,11 +110,11 @@ def strip_caches(spec):
     return out
 
 
-def gen_ops(rnd, ids, fields, n_variants, spec, n_ops):
+def gen_ops(rnd, ids, fields, n_variants, spec, n_ops, allow_typed=True):
     ops = []
     keys = ids + ['zz']
     # some histories use keys that Python == identifies although their types differ (1 == 1.0 == True)
-    typed = rnd.random() < 0.2
+    typed = allow_typed and rnd.random() < 0.2
     if typed:
         keys = [1, 1.0, True, ids[0], 'zz']
     ram_layers = [i for i, d in enumerate(spec) if d['t'] == 'ram']
@@ -125,6 +125,8 @@ def gen_ops(rnd, ids, fields, n_variants, spec, n_ops):
             fs = rnd.choice(fields) if rnd.random() < 0.75 else sorted(rnd.sample(fields, 2))
             key = rnd.choice(keys[:-1]) if rnd.random() < 0.93 else 'zz'
             ops.append({'op': 'call', 'variant': rnd.randrange(n_variants), 'fields': fs, 'key': key})
+            if rnd.random() < 0.35:
+                ops.append(dict(ops[-1], repeat=True))
         elif r < 0.8 and ram_layers:
             ops.append({'op': 'clear', 'variant': rnd.randrange(n_variants), 'layer': rnd.choice(ram_layers)})
         elif r < 0.9:
@@ -186,6 +188,8 @@ def run_case(case, work, with_model=True):
                 o['res'] = {'val': to_json(g(op['key']))}
             except BaseException as e:  # noqa
                 o['res'] = {'exc': 'User:' + str(e.args[0]) if (sympool.RAISED and e is sympool.RAISED[-1]) else _cls(e)}
+                o['exc_detail'] = f'{type(e).__name__}: {e}'[:200]
+                o['user_exc'] = type(sympool.RAISED[-1]).__name__ if sympool.RAISED else None
             o['log'] = [[n, [to_json(x) for x in a], [[kk, to_json(x)] for kk, x in k]] for n, a, k in sympool.CALLS]
             o['trace'] = [list(x) for x in P.TRACE]
             o['bad'] = [pending_bad] if pending_bad else []
@@ -205,6 +209,8 @@ def run_case(case, work, with_model=True):
                 o['ref_nofail'] = {'exc': _cls(e)}
             pending_bad = None
         o['ram_sizes'] = [[ci.ids[k], len(c._cache), c.size] for k, c in zip(list(ci.ids), ci.objs) if k[0] == 'ram']
+        o['col_sizes'] = [[vi, li, len(l.ram._cache)] for vi, (_, ls) in enumerate(built) for li, l in enumerate(ls)
+                          if type(l).__name__ == 'CacheColumns']
         obs.append(o)
     for gr in graphs:
         if gr is not None:
@@ -242,7 +248,7 @@ def main():
         variants = [spec]
         if rnd.random() < 0.4:
             variants.append(variant_of(spec, sy, rnd))
-        ops = gen_ops(rnd, ids, fields, len(variants), spec, rnd.randint(3, a.ops))
+        ops = gen_ops(rnd, ids, fields, len(variants), spec, rnd.randint(3, a.ops), allow_typed=not a.columns)
         cases.append({'variants': variants, 'ids': ids, 'fields': fields, 'n_roots': n_roots, 'ops': ops})
     os.makedirs(a.work, exist_ok=True)
     out = [run_case(c, a.work) for c in cases]
